@@ -60,6 +60,9 @@ class ModRedfieldRelaxationTensor(RelaxationTensor):
 
     def initialize(self):
         
+        # the data calculated below are not secular, whatever was done
+        # to the data they replace
+        self.is_secular = False
         #
         # Tensor data
         #
